@@ -1,4 +1,5 @@
 import gfapy
+import re
 
 class Trace(list):
   """Trace alignment.
@@ -72,8 +73,9 @@ class Trace(list):
 
   @classmethod
   def _from_string(cls,string):
-    try:
-      return Trace([int(v) for v in string.split(",")])
-    except:
-      raise gfapy.FormatError("string does not encode"+
-          " a valid trace alignment: {}".format(string))
+    elems = string.split(",")
+    for v in elems:
+      if not re.match(r"^-?[0-9]+\Z", v):
+        raise gfapy.FormatError("string does not encode"+
+            " a valid trace alignment: {}".format(repr(string)))
+    return Trace([int(v) for v in elems])
